@@ -275,7 +275,9 @@ func (s *PfcpServer) sendReqTo(msg message.Message, addr net.Addr) error {
 		return errors.Errorf("sendReqTo: invalid req type(%d)", msg.MessageType())
 	}
 
-	txtr := NewTxTransaction(s, addr, s.txSeq)
+	// the sequence number is a 24-bit field on the wire; key the
+	// transaction by the value the response will carry
+	txtr := NewTxTransaction(s, addr, s.txSeq&0xffffff)
 	s.txSeq++
 	s.txTrans[txtr.id] = txtr
 
